@@ -59,6 +59,21 @@ CHECKS.update({
         design="5/C17"),
 })
 
+CHECKS.update({
+    "C07": dict(
+        engine="tgv-ide",
+        technique=FORM_H + "; every history up to the depth bound is executed on one live AnalysisHost and compared with a fresh host",
+        text="States are (root, text variant of each of three files); transitions call the real AnalysisHost (edit keeping the root, root switch, on-disk change of an included file followed by re-selection of the root). All operation sequences up to the bound are run - not merged by state, because history-independence is the property - and after each history the complete query transcript of the live host must equal that of a host built from the final texts alone.",
+        note="protocol = set_file_content then set_root_file, as the server issues it; ids mapped to paths, hash-ordered results sorted",
+        design="5/C07"),
+    "C16": dict(
+        engine="tgv-ide",
+        technique=FORM_H + " over configurations: every include graph up to the bound x every root, against a reference resolver (BFS reachability)",
+        text="Every directed graph with self-loops on up to 4 files (all edge sets) and 5 files with bounded out-degree, each with every root, plus missing-target and INCLUDE_DIR variants, is built as a real workspace; termination is decided by fuel (hook H2), and workspace set, links, not-found diagnostics and single indexing are compared with the reference.",
+        note="INCLUDE_DIR is set per case inside the worker; fuel 20000 ticks",
+        design="5/C16"),
+})
+
 NOT_YET = {}
 
 def main():
